@@ -218,6 +218,9 @@ def build_pool(seed, tier):
                 calls.append({"op": "lineage", "sql": q, "read": None, "schema": "xyz", "column": al})
         calls.append({"op": "optimize" if rng.random() < 0.5 else "qualify", "sql": q, "read": None, "schema": "xyz"})
 
+    for d, q, col, sch in corpus.LINEAGE_CASES:
+        calls.append({"op": "lineage", "sql": q, "read": d, "schema": sch, "column": col})
+
     # Focus groups: several calls that all go to ONE component configuration (same generator class + options, same parser
     # + error level, same tokenizer), drawn from inputs that touch per-instance state. A "focus" history replays a group on
     # one reused instance, which is what makes forgotten resets observable (second call differs from a fresh instance).
